@@ -18,6 +18,8 @@ struct layout); they appear because the Model's lists are unbounded.
 import Proofs.ImplV2Lists
 import Proofs.ImplV1Roundtrip
 import Proofs.ZlibCompressLoop
+import Proofs.ZlibCompressChunks
+import Proofs.PayloadNonempty
 
 namespace EngineModel.Properties.C03
 open EngineModel EngineModel.Codec EngineModel.V2 EngineModel.Impl.V2
@@ -44,13 +46,15 @@ example : (⟨0x40e5888000000000, 0x4150000000000000, 1,
 
 /-- 2.x overview waveform.  `Ovw.Valid` = three bytes per point, a three-byte
 maximum point, fewer than 2^63 points (true of every C++ value). -/
-theorem C03_v2_ovw_roundtrip (v : Ovw) (extra : Bytes) (h : v.Valid) :
+theorem C03_v2_ovw_roundtrip (v : Ovw) (extra : Bytes) (h : v.Valid)
+    (hlen : 27 + v.points.length + extra.length < maxCount) :
     ∃ b, encodeOvw v extra = .ok b ∧ decodeOvw b = .ok (v, extra) := by
   refine ⟨_, encodeOvw_ok v h extra, ?_⟩
-  rw [decodeOvw_eq]
+  rw [decodeOvw_eq _ (by rw [List.length_append, ovw_enc_length, h.2.2]; omega)]
   exact liftDec_of_dec (ovw_sound v h extra)
 
-example : (⟨0x4090000000000000, [1, 2, 3, 4, 5, 6], [4, 5, 6]⟩ : Ovw).Valid := by
+example : (⟨0x4090000000000000, [1, 2, 3, 4, 5, 6], [4, 5, 6]⟩ : Ovw).Valid ∧
+    27 + (⟨0x4090000000000000, [1, 2, 3, 4, 5, 6], [4, 5, 6]⟩ : Ovw).points.length + ([] : Bytes).length < maxCount := by
   unfold Ovw.Valid maxCount; decide
 
 /-- The encodable domain of 2.x quick cues: every label at most 255 bytes. -/
@@ -313,13 +317,14 @@ theorem C03_absent_only_reserved :
 
 /-- Overview waveform: the three value channels come back; the format has no opacity channel and
 the decoder supplies 255. -/
-theorem C03_v1_ovw_readback (v : Impl.V1.Wave) (hrep : v.entries.length < maxCount) :
+theorem C03_v1_ovw_readback (v : Impl.V1.Wave) (hrep : 27 + 3 * v.entries.length < maxCount) :
     ∃ b, Impl.V1.encodeOvw v = .ok b ∧ Impl.V1.decodeOvw b = .ok ⟨v.spe, v.entries.map opaq⟩ := by
   obtain ⟨b, hs, hi⟩ := encodeOvw_ok v
   refine ⟨b, hi, ?_⟩
-  rw [V1Proofs.decodeOvw_eq, spec_ovw_roundtrip v hrep b hs]; rfl
+  have hb : b.length = 27 + 3 * v.entries.length := Impl.V2.writeInto_length hi
+  rw [V1Proofs.decodeOvw_eq b (by omega), spec_ovw_roundtrip v (by omega) b hs]; rfl
 
-theorem C03_v1_ovw_roundtrip (v : Impl.V1.Wave) (hrep : v.entries.length < maxCount)
+theorem C03_v1_ovw_roundtrip (v : Impl.V1.Wave) (hrep : 27 + 3 * v.entries.length < maxCount)
     (hop : ∀ e ∈ v.entries, e.lo = 255 ∧ e.mo = 255 ∧ e.ho = 255) :
     ∃ b, Impl.V1.encodeOvw v = .ok b ∧ Impl.V1.decodeOvw b = .ok v := by
   obtain ⟨b, h1, h2⟩ := C03_v1_ovw_readback v hrep
@@ -334,13 +339,14 @@ theorem C03_v1_ovw_roundtrip (v : Impl.V1.Wave) (hrep : v.entries.length < maxCo
     | mk lv mv hv lo mo ho => simp only at a b c; subst a b c; rfl
   rw [this]
 
-theorem C03_v1_hires_roundtrip (v : Impl.V1.Wave) (hrep : v.entries.length < maxCount) :
+theorem C03_v1_hires_roundtrip (v : Impl.V1.Wave) (hrep : 30 + 6 * v.entries.length < maxCount) :
     ∃ b, Impl.V1.encodeHires v = .ok b ∧ Impl.V1.decodeHires b = .ok v := by
   obtain ⟨b, hs, hi⟩ := encodeHires_ok v
   refine ⟨b, hi, ?_⟩
-  rw [V1Proofs.decodeHires_eq, spec_hires_roundtrip v hrep b hs]; rfl
+  have hb : b.length = 30 + 6 * v.entries.length := Impl.V2.writeInto_length hi
+  rw [V1Proofs.decodeHires_eq b (by omega), spec_hires_roundtrip v (by omega) b hs]; rfl
 
-example : (⟨0x4090000000000000, [⟨1, 2, 3, 255, 255, 255⟩, ⟨9, 8, 7, 255, 255, 255⟩]⟩ : Impl.V1.Wave).entries.length
+example : 30 + 6 * (⟨0x4090000000000000, [⟨1, 2, 3, 255, 255, 255⟩, ⟨9, 8, 7, 255, 255, 255⟩]⟩ : Impl.V1.Wave).entries.length
     < maxCount := by decide
 
 end V1
@@ -360,12 +366,36 @@ section Compress
 open EngineModel.Impl.Zlib
 
 theorem C03_compress_complete {σ : Type} (o : DOracle σ) (c : DContract o) (s0 : σ) (hs0 : c.live s0)
-    (buf : Bytes) (fuel : Nat) (hf : cFuelBound c s0 buf.length ≤ fuel) :
+    (buf : Bytes) (hne : buf ≠ []) (fuel : Nat) (hf : cFuelBound c s0 buf.length ≤ fuel) :
     ∃ blob log, compress o s0 fuel buf = .ok (blob, log) ∧
       blob = lenPrefix buf.length ++ log.flatMap (·.out) ∧
       (log.map (·.consumed)).sum = buf.length ∧
       ∃ d, log.getLast? = some d ∧ d.flush = .finish ∧ d.ret = .streamEnd :=
-  compress_complete o c s0 hs0 buf fuel hf
+  compress_complete o c s0 hs0 buf hne fuel hf
+
+/-- The hypothesis `buf ≠ []` is exactly what the code needs: `auto* ptr = &uncompressed[0]` on an
+empty vector is undefined (`operator[]` precondition; an abort in the `_GLIBCXX_ASSERTIONS` build of
+the harness, replayed on every run as `ztrace -`) … -/
+theorem C03_compress_empty_ub {σ : Type} (o : DOracle σ) (s0 : σ) (fuel : Nat) :
+    compress o s0 fuel [] = .ub .oob_index := compress_empty o s0 fuel
+
+/-- … and no codec reaches it: every payload one of the nine compressed codecs hands to
+`zlib_compress` has at least 25 bytes. -/
+theorem C03_compress_input_nonempty :
+    (∀ v extra b, Impl.V2.encodeTrack v extra = .ok b → 44 ≤ b.length) ∧
+    (∀ v extra b, Impl.V2.encodeBeat v extra = .ok b → 33 ≤ b.length) ∧
+    (∀ v extra b, Impl.V2.encodeCues v extra = .ok b → 25 ≤ b.length) ∧
+    (∀ v extra b, Impl.V2.encodeOvw v extra = .ok b → 27 ≤ b.length) ∧
+    (∀ v b, Impl.V1.encodeTrack v = .ok b → b.length = 28) ∧
+    (∀ v b, Impl.V1.encodeBeat v = .ok b → 33 ≤ b.length) ∧
+    (∀ v b, Impl.V1.encodeCues v = .ok b → 129 ≤ b.length) ∧
+    (∀ v b, Impl.V1.encodeOvw v = .ok b → 27 ≤ b.length) ∧
+    (∀ v b, Impl.V1.encodeHires v = .ok b → 30 ≤ b.length) :=
+  ⟨fun _ _ _ h => Impl.V2.encodeTrack_len h, fun _ _ _ h => Impl.V2.encodeBeat_len h,
+   fun _ _ _ h => Impl.V2.encodeCues_len h, fun _ _ _ h => Impl.V2.encodeOvw_len h,
+   fun _ _ h => Impl.V1.encodeTrack_len h, fun _ _ h => Impl.V1.encodeBeat_len h,
+   fun _ _ h => Impl.V1.encodeCues_len h, fun _ _ h => Impl.V1.encodeOvw_len h,
+   fun _ _ h => Impl.V1.encodeHires_len h⟩
 
 /-- The contract is satisfiable and the fuel bound explicit (pass-through oracle: `4·n + 2`). -/
 example : cFuelBound storeContract () 100000 = 400002 := by decide
@@ -379,6 +409,65 @@ theorem C03_compress_avail_in_condition_counterexample (fuel : Nat) :
         = .ok (acc, [d1, d2]) ∧
       acc.length = chunk ∧ d1.consumed + d2.consumed = chunk + 1 ∧ d2.flush = .finish ∧ d2.ret = .ok :=
   compress_avail_in_condition_drops_output fuel
+
+/-! ### which call gets `Z_FINISH`: the input-chunking decision, for every payload length
+
+`chunkPlan n` (Proofs/ZlibCompressChunks.lean) is the C++ decision
+`if (ptr + chunk_size < end) {chunk_size, Z_NO_FLUSH} else {end - ptr, Z_FINISH}` … `while (flush != Z_FINISH)`
+as a function of the payload length alone.  The next theorems hold for EVERY oracle (they are about
+control flow, no contract is needed), every fuel and every payload length — 1 and exact multiples of the
+chunk size included (the empty payload never returns: `C03_compress_empty_ub`). -/
+
+/-- If the Model of `zlib_compress` returns, its recorded calls follow `chunkPlan (payload length)`
+window by window (`Sched`: per window a non-empty run of calls with that window's flush mode, the first
+seeing the whole window, every call but the last of a run having filled the output buffer). -/
+theorem C03_compress_chunk_schedule {σ : Type} (o : DOracle σ) (s0 : σ) (fuel : Nat) (buf : Bytes)
+    (blob : Bytes) (log : List DCall) (h : compress o s0 fuel buf = .ok (blob, log)) :
+    Sched (chunkPlan buf.length) log :=
+  compress_sched o s0 fuel buf blob log h
+
+/-- The plan in closed form and at the boundaries: `(n−1)/chunk` full `Z_NO_FLUSH` windows then ONE
+`Z_FINISH` window; an exact multiple `k·chunk` (k ≥ 1) ends with a FULL `Z_FINISH` window, `k·chunk+1`
+with a 1-byte one, `k·chunk−1` with one a byte short; the empty payload is one empty `Z_FINISH` window. -/
+theorem C03_compress_chunk_plan (n k : Nat) (hk : 0 < k) :
+    chunkPlan n = List.replicate ((n - 1) / chunk) (Flush.noFlush, chunk) ++ [(Flush.finish, finalChunkLen n)] ∧
+    ((chunkPlan n).map (·.2)).sum = n ∧
+    chunkPlan 0 = [(Flush.finish, 0)] ∧
+    chunkPlan (k * chunk - 1) = List.replicate (k - 1) (Flush.noFlush, chunk) ++ [(Flush.finish, chunk - 1)] ∧
+    chunkPlan (k * chunk) = List.replicate (k - 1) (Flush.noFlush, chunk) ++ [(Flush.finish, chunk)] ∧
+    chunkPlan (k * chunk + 1) = List.replicate k (Flush.noFlush, chunk) ++ [(Flush.finish, 1)] :=
+  ⟨chunkPlan_eq n, chunkPlan_sum n, chunkPlan_last (by decide), chunkPlan_mul_pred k hk, chunkPlan_mul k hk,
+   chunkPlan_mul_succ k hk⟩
+
+example : chunkPlan 49152 = [(.noFlush, 16384), (.noFlush, 16384), (.finish, 16384)] :=
+  chunkPlan_mul 3 (by decide)
+
+/-- **The last window, and only the last window, carries `Z_FINISH`, for every payload length**: the
+log is `pre ++ fin`, every call of `pre` is `Z_NO_FLUSH`, `fin` is the non-empty run of `Z_FINISH`
+calls, and its first call is handed exactly `finalChunkLen n` bytes. -/
+theorem C03_compress_finish_only_last {σ : Type} (o : DOracle σ) (s0 : σ) (fuel : Nat) (buf : Bytes)
+    (blob : Bytes) (log : List DCall) (h : compress o s0 fuel buf = .ok (blob, log)) :
+    ∃ pre fin, log = pre ++ fin ∧
+      (∀ d ∈ pre, d.flush = .noFlush) ∧ (∀ d ∈ fin, d.flush = .finish) ∧ fin ≠ [] ∧
+      Sched (List.replicate (fullChunks buf.length) (.noFlush, chunk)) pre ∧
+      Run .finish (finalChunkLen buf.length) fin ∧
+      ∃ d, fin.head? = some d ∧ d.availIn = finalChunkLen buf.length :=
+  compress_finish_only_last o s0 fuel buf blob log h
+
+/-- non-vacuity: the hypothesis is met for every payload by a contract-honouring oracle -/
+example (buf : Bytes) (hne : buf ≠ []) :
+    ∃ blob log, compress storeOracle () (4 * buf.length + 2) buf = .ok (blob, log) :=
+  compress_ok storeOracle storeContract () trivial buf hne _ (by simp only [cFuelBound, storeContract]; omega)
+
+/-- "A chunk is final iff it is shorter than the chunk size; loop while `remaining > 0`" (seeded change
+C02-1) is the wrong decision: on a payload of exactly one chunk, for an oracle honouring the whole
+contract, those loops return without a single `Z_FINISH` call and no call reports `Z_STREAM_END`. -/
+theorem C03_compress_remaining_counter_counterexample (fuel : Nat) :
+    ∃ acc log, cloopRem storeOracle (List.replicate chunk 0) (fuel + 3) () 0 .outer [] []
+        = .ok (acc, log) ∧
+      (∀ d ∈ log, d.flush = .noFlush) ∧ (log.map (·.consumed)).sum = chunk ∧
+      ∀ d ∈ log, d.ret ≠ .streamEnd :=
+  compress_remaining_counter_counterexample fuel
 
 end Compress
 
